@@ -144,7 +144,7 @@ Pieces(v) ==
 \* values whose printed form the properties do not determine
 RECURSIVE SinkSpecified(_)
 SinkSpecified(v) ==
-  CASE v.t \in {"fn", "gofn", "iter", "opq", "rec"} -> FALSE
+  CASE v.t \in {"fn", "gofn", "iter", "opq", "rec", "time"} -> FALSE
     [] v.t = "flt"    -> FloatPrintable(v)
     [] v.t = "arr"    -> \A i \in 1..Len(v.xs) : SinkSpecified(v.xs[i])
     [] v.t = "chunks" -> \A i \in 1..Len(v.cs) : SinkSpecified(v.cs[i])
@@ -326,12 +326,21 @@ ExecBlock(ss, i, acc) ==
   ELSE IF r.k = "ok" THEN ExecBlock(ss, i + 1, [acc EXCEPT !.out = acc.out \o r.out, !.st = r.st])
   ELSE [r EXCEPT !.out = acc.out \o r.out]             \* brk / cnt / ret leave the block with what it produced
 
+\* an output tag that emits a time.Time prints it with the TIME_FORMAT visible from the tag's own scope
+\* (the instant is 2024-03-05 10:30:00 UTC; two formats are modelled, any other is unspecified)
+TimeOut(r) ==
+  LET f == Find(r.st, "TIME_FORMAT") IN
+  IF ~f.found THEN [r EXCEPT !.out = <<H(<<"M","a","r","c","h"," ","0","5",","," ","2","0","2","4"," ","1","0",":","3","0",":","0","0"," ","+","0","0","0","0">>)>>]
+  ELSE IF f.v = S(<<"2", "0", "0", "6", "-", "0", "1", "-", "0", "2">>) THEN [r EXCEPT !.out = <<H(<<"2","0","2","4","-","0","3","-","0","5">>)>>]
+  ELSE Unspec(r.st)
+
 \* a statement inside a block: result.out = what it adds to the block's value
 ExecStmt(s, st) ==
   CASE s.t = "text" -> R("ok", Nil, <<H(s.s)>>, st, FALSE, FALSE)
     [] s.t = "cmt"  -> R("ok", Nil, <<>>, st, FALSE, FALSE)
     [] s.t = "emit" -> LET r == EvalE(s.e, st) IN
-                       IF r.k = "ok" THEN (IF SinkSpecified(r.v) THEN [r EXCEPT !.out = <<r.v>>] ELSE Unspec(r.st))
+                       IF r.k = "ok" THEN (IF r.v.t = "time" THEN TimeOut(r)
+                                           ELSE IF SinkSpecified(r.v) THEN [r EXCEPT !.out = <<r.v>>] ELSE Unspec(r.st))
                        ELSE NoUnk(r)
     [] s.t = "code" -> LET r == EvalE(s.e, st) IN
                        IF r.k = "ok" THEN [r EXCEPT !.out = <<>>] ELSE NoUnk(r)      \* silent: contributes nothing
